@@ -21,10 +21,12 @@ class Registry:
     def __init__(self, rows):
         self.map = {}
         self.dup = False
+        self.ndup = 0
         for k, r in enumerate(rows):
             key = np.ascontiguousarray(r).tobytes()
             if key in self.map:
                 self.dup = True
+                self.ndup += 1
             else:
                 self.map[key] = k + 1
 
@@ -96,9 +98,16 @@ def _rar(cfg, which):
 
 def _dup(tr, cfg):
     """two stored points with identical bytes: with random sampling an (unlikely) accident of float arithmetic - the trace cannot be
-    decoded and is skipped; with grid sampling the points of a store are distinct by construction, so it is reported"""
+    decoded and is skipped; with grid sampling the points of a store are distinct by construction, so it is reported.  An accident
+    produces ONE pair of in-domain points: a store repeating points several times, or holding a point outside its domain, is reported"""
+    ndup = tr.pop("_ndup", 0)
+    outside = any(not all(st.get("inDom", [])) for st in tr["stores"]) or tr.pop("_outside", False)
     if cfg.get("method") == "grid":
         tr["exc"] = "GridPointsNotDistinct: a grid-sampled store holds the same point twice"
+    elif outside:
+        tr["exc"] = "StoredPointOutsideDomain: a store holds repeated points, one of them outside the domain it was built for"
+    elif ndup >= 2:
+        tr["exc"] = f"StoredPointsNotDistinct: {ndup} stored points repeat another stored point (random sampling: at most an accidental pair)"
     else:
         tr["skipped"] = "duplicate floats in store"
 
@@ -128,10 +137,12 @@ def case_ode(cfg):
         return tr
     times = _np(g.times)
     reg = Registry(times)
+    dt = times.dtype.type
     if reg.dup:
+        tr["_ndup"] = reg.ndup
+        tr["_outside"] = not all(bool(dt(lo) <= v <= dt(hi)) for v in times)
         _dup(tr, cfg)
         return tr
-    dt = times.dtype.type
     tr["stores"].append(_store(
         "times", req=n, b=b, neff=(cfg["nstart"] if rar else n), init=reg.ids(times), cur0=int(g.curr_time_idx),
         inDom=[bool(dt(lo) <= v <= dt(hi)) for v in times], shape=list(times.shape), mask=_mask(g.p_times, len(times))))
@@ -214,6 +225,7 @@ def case_statio(cfg):
         st_b, reg_b, _ = _border_store(g, cfg, dim, lo, hi)
         tr["stores"].append(st_b)
     if reg_o.dup or (has_b and reg_b.dup):
+        tr["_ndup"] = reg_o.ndup + (reg_b.ndup if has_b else 0)
         _dup(tr, cfg)
         return tr
     for _ in range(cfg["draws"]):
@@ -261,6 +273,7 @@ def case_nonstatio(cfg):
         init=reg_t.ids(times), cur0=int(g.curr_time_idx), inDom=[bool(dt(tlo) <= v <= dt(thi)) for v in times],
         shape=list(times.shape), mask=_mask(g.p_times, len(times))))
     if reg_o.dup or reg_t.dup or (has_b and reg_b.dup):
+        tr["_ndup"] = reg_o.ndup + reg_t.ndup + (reg_b.ndup if has_b else 0)
         _dup(tr, cfg)
         return tr
     for _ in range(cfg["draws"]):
